@@ -679,6 +679,17 @@ v("C07", "mask-not-negated", "break", ROUTER,
   "    masked_base_ip = base_ip_int & wildcard_int\n    masked_ip_to_check = ip_to_check_int & wildcard_int", "R7.5", "the mask selects the bits to compare instead of the bits to ignore")
 v("C07", "mask-one-side", "break", ROUTER,
   "    masked_ip_to_check = ip_to_check_int & ~wildcard_int", "    masked_ip_to_check = ip_to_check_int", "R7.5", "only the base address is masked")
+v("C07", "mask-by-prefix-length", "break", ROUTER,
+  '''    masked_base_ip = base_ip_int & ~wildcard_int
+    masked_ip_to_check = ip_to_check_int & ~wildcard_int''',
+  '''    host_bits = wildcard_int.bit_length()
+    masked_base_ip = base_ip_int >> host_bits
+    masked_ip_to_check = ip_to_check_int >> host_bits''', "R7.5", "treats every wildcard as a contiguous low-order block")
+v("C07", "mask-by-subtraction", "break", ROUTER,
+  '''    masked_base_ip = base_ip_int & ~wildcard_int
+    masked_ip_to_check = ip_to_check_int & ~wildcard_int''',
+  '''    masked_base_ip = base_ip_int - wildcard_int
+    masked_ip_to_check = ip_to_check_int - (ip_to_check_int & wildcard_int)''', "R7.5", "arithmetic form that is wrong when the base has wildcard bits clear")
 v("C07", "benign-xor-form", "benign", ROUTER,
   "    return masked_base_ip == masked_ip_to_check", "    return (base_ip_int ^ ip_to_check_int) & ~wildcard_int == 0", None, "same predicate written with xor")
 v("C07", "benign-break-to-return-shape", "benign", ROUTER,
